@@ -35,9 +35,14 @@ func c12Preludes() [][]model.Op {
 	two := func(a, b int) model.Op {
 		return model.Op{K: model.OpNew, Path: model.PathMapN, Cs: ct.Of(ct.R1, ct.R2), T: []model.RelT{{C: ct.R1, T: a}, {C: ct.R2, T: b}}}
 	}
+	child1 := func(t int) model.Op {
+		return model.Op{K: model.OpNew, Path: model.PathMapN, Cs: ct.Of(ct.P, ct.R1), T: rel(ct.R1, t)}
+	}
 	return [][]model.Op{
 		{nP, nP, nP, two(0, 1), two(1, 2), two(0, 2), two(2, 0)},
 		{nP, nP, two(0, 1), two(1, 0), {K: model.OpNew, Path: model.PathMapN, Cs: ct.Of(ct.P, ct.R1), T: rel(ct.R1, 0)}, {K: model.OpRegister, F: 0}},
+		// relation tables grown to different capacities (capacity 1 world): recycling order after Reset shows in Stats
+		{nP, nP, nP, child1(0), child1(0), child1(0), child1(1), child1(2), child1(2)},
 	}
 }
 
